@@ -158,6 +158,28 @@ def clause_b(facts, rep, tag):
                           'the string view stored in the map must view the member\'s own (possibly copied) key, not the caller\'s argument whose lifetime ends with the call', facts.config)
                 idx_ok = any(x.get('k') == 'ref' and x.get('name') == 'count' for a in e['args'] for x in walk(a))
                 rep.check(idx_ok, 'E2.map-pairing', f.qn, 'map index is the old size', locline(e['loc']), show(e)[:80], facts.config)
+    # Clear(): the emptied container must not keep a children block whose header still carries a lookup map
+    # (with the pool allocator destroy() releases nothing, so only detaching the block drops the stale map)
+    for f in pick(facts, 'clearImpl', tag):
+        rep.fn(f)
+
+        def gen_detach(s):
+            for e in walk(s):
+                if e.get('k') == 'call' and e.get('cname') == 'setChildren' and e.get('args') and cval(e['args'][0]) == 0:
+                    return ['detached']
+                if e.get('k') == 'call' and e.get('cname') == 'DestroyMap':
+                    return ['detached']
+            return []
+        Mc = Must(f, gen_stmt=gen_detach)
+        for bid, i, s in f.stmts():
+            s_ = strip(s)
+            if s_.get('k') == 'ret':
+                st = Mc.at(bid, i)
+                if st is None:
+                    continue
+                n += 1
+                rep.check('detached' in st, 'E2.map-pairing', f.qn, 'Clear() detaches the children block (or destroys the map) on every path', locline(s_['loc']),
+                          'a cleared object that keeps its old block keeps the old lookup map: every erased key stays "present"', facts.config)
     for f in pick(facts, 'eraseMemberImpl', tag):
         rep.fn(f)
         M = Must(f, gen_stmt=lambda s: ['nomap'] if any(e.get('k') == 'call' and e.get('cname') == 'DestroyMap' for e in walk(s)) else [])
